@@ -249,6 +249,13 @@ class C09(Property):
         if kind == 'ontologies':
             return run_ontologies(case)
         built = [G.build(kind, s) for s in case['defs']]
+        for _o, e in built:
+            # a generated definition that is not valid by itself (a time span property that is no datetime, say) is no case:
+            # comparing validates its operands
+            try:
+                e.validate()
+            except Exception:
+                return {'skipped': True}
         if case.get('mutated_from') is not None:
             a = case['mutated_from']
             o, e = G.build(kind, a)
@@ -310,7 +317,7 @@ class C09(Property):
                 'roundtrip': [[True, True] if root else None for _ in defs]}
 
     def fill_undecided(self, case, obs, pred):
-        if pred == 'undecided' or (isinstance(obs, dict) and obs.get('unbuildable')):
+        if pred == 'undecided' or (isinstance(obs, dict) and (obs.get('unbuildable') or obs.get('skipped'))):
             return obs
         if isinstance(pred, dict) and pred.get('same_xml') == 'undecided':
             pred['same_xml'] = obs.get('same_xml')
@@ -348,6 +355,8 @@ class C09(Property):
                         return 'ontologies %d and %d: == answers %r from one side and %r from the other' % (i, j, eq[i][j], eq[j][i])
                     if eq[i][j] == 'equal' and not obs['same_xml'][i][j]:
                         return 'ontologies %d and %d compare equal but serialize differently' % (i, j)
+            return None
+        if obs.get('skipped'):
             return None
         ops = obs['ops']
         n = len(ops)
